@@ -20,6 +20,7 @@ void env_push(const uint8_t *bytes, size_t n);          /* scheduling point */
 void env_push_quiet(const uint8_t *bytes, size_t n);    /* no scheduling point (used from inside write callback) */
 void env_push_nobyte(void);
 int  env_input_pending(void);
+void env_clear_io(void);                                /* forget pending uplink bytes and the downlink transcript (between sessions) */
 size_t env_input_dump(char *buf, size_t n);             /* uplink bytes not yet read by the library (part of the environment's state) */
 size_t env_bytes_consumed(void);
 /* downlink transcript */
